@@ -41,7 +41,10 @@ class NdNode(Node):
         assert not hd
         from . import tg
         # untyped arrays: one leaf kind per array (numpy coerces mixed leaves, reads bytearray as a buffer, ...)
-        kinds = [tg.small_ints, tg.finite_floats, tg.texts, st.booleans(), st.sampled_from([0j, 1.5 + 2j])]
+        kinds = [tg.small_ints, tg.finite_floats, tg.texts, st.booleans(), st.sampled_from([0j, 1.5 + 2j]),
+                 st.sampled_from([{'a': 1}, {}, {'k': [1]}, None]),
+                 # leaves numpy cannot put into one array (its constructor raises): the verdict is the reference's business
+                 st.sampled_from(['', 'a', bytearray(b'x'), False, b'y', 1.5])]
 
         @st.composite
         def mk(draw):
